@@ -230,10 +230,14 @@ BISECT_RULES = {
     # (list, probe kind) -> required variant, reason
     ("_stops", "L"): ("bisect_right", "first range whose (exclusive) stop lies beyond an inclusive start / point: stop == probe does not contain it"),
     ("_starts", "U"): ("bisect_left", "ranges whose (inclusive) start lies before an exclusive stop: start == probe does not overlap"),
+    ("_starts", "UI"): ("bisect_right", "ranges whose (inclusive) start is at or before an inclusive last address: start == probe overlaps"),
+    ("_stops", "UI"): ("bisect_right", "first range whose (exclusive) stop lies beyond an inclusive address"),
 }
 
 
 def probe_kind(e):
+    if e[0] == 'bin' and e[1] == '-' and e[2][0] == 'attr' and e[2][2] == 'stop' and e[3] == ('const', 1):
+        return "UI"                                 # inclusive upper endpoint: the last address of the range
     if e[0] == 'attr' and e[2] == 'start':
         return "L"
     if e[0] == 'attr' and e[2] == 'stop':
